@@ -225,11 +225,15 @@ def complete_case(ctx, idx, rng):
     nH = max(np.linalg.norm(mH, 2), 1.0)
     lam = sector_min(mH, qd, L, qtot)
     integ = 'twosite' if two else 'singlesite'
-    # structure classifier (input only): a Hamiltonian that is DIAGONAL in the product basis (only charge-neutral diagonal terms, e.g. a hand-built
-    # nearest-neighbour model whose operators all carry charge 0 on qd = [1, -1]) couples no two configurations
-    diagonal = not np.any(mH - np.diag(np.diag(mH)))
+    # structure classifier (input only): a Hamiltonian whose restriction to the sector is REDUCIBLE in the product basis (the graph of its non-zero matrix
+    # elements on the product configurations of the sector is disconnected: conserved quantities beyond the labelled charge). Extreme case: a Hamiltonian
+    # that is diagonal in the product basis (only charge-neutral diagonal terms); another: long-range terms that leave the spin of a spectator site conserved
+    from scipy.sparse.csgraph import connected_components
+    mask = refs.sector_basis_mask(qd, L, qtot)
+    sub = mH[np.ix_(mask, mask)]
+    diagonal = int(connected_components(np.abs(sub) > 0, directed=False)[0]) > 1
     if diagonal:
-        cls = cls + '-diagonal-H'
+        cls = cls + ('-diagonal-H' if not np.any(mH - np.diag(np.diag(mH))) else '-reducible-H')
     ctx.case(('complete', integ, name, f'L{L}', f'class{cls}'), sample={'model': name, 'L': L, 'sector': qtot, 'bond_dims': psi.bond_dims, 'class': cls},
              info={'model': name, 'L': L, 'sector': qtot, 'qD': psi.qD, 'A': psi.A, 'H_A': H.A, 'H_qD': H.qD, 'algorithm': integ})
     detail = ctx.cur_info
@@ -253,13 +257,14 @@ def complete_case(ctx, idx, rng):
             break       # stalled
     if diagonal:
         if reached:
-            ctx.count('complete.diagonal-H-reaches-ground-state')
+            ctx.count('complete.reducible-H-reaches-ground-state')
         else:
             # every local effective Hamiltonian is diagonal too: the Krylov space built from the current tensor never leaves the configurations the state
             # already has weight on, and each local step collapses the state further -- a greedy descent that can end on a configuration of higher energy
-            ctx.known('C10/diagonal-hamiltonian-greedy-descent',
-                      'DMRG on a complete manifold with a Hamiltonian that is diagonal in the product basis does not reach the exact ground-state energy: local '
-                      'Krylov solvers started from the current tensor cannot regain configurations the state has lost (greedy descent to a local minimum)', detail)
+            ctx.known('C10/product-reducible-hamiltonian-greedy-descent',
+                      'DMRG on a complete manifold with a Hamiltonian that is reducible in the product basis of the sector (disconnected configuration graph; extreme case: '
+                      'a diagonal Hamiltonian) does not reach the exact ground-state energy: local Krylov solvers started from the current tensor cannot regain invariant '
+                      'blocks the state has lost (greedy descent to a local minimum)', detail)
     elif cls == 'E':
         ctx.ok('complete.classE-reaches-ground-state-in-one-sweep', reached, f'energy {en_all[-1]} after one sweep, exact sector ground state {lam} (bond dims {psi.bond_dims})', detail)
     elif reached:
